@@ -127,8 +127,8 @@ impl Property for C27 {
     }
     fn units(&self, tier: Tier) -> u64 {
         match tier {
-            Tier::Quick => 14_000,
-            Tier::Thorough => 280_000,
+            Tier::Quick => 100_000,
+            Tier::Thorough => 2_000_000,
         }
     }
 
